@@ -115,13 +115,13 @@ func diff(now, prev snap) snap {
 }
 
 type lane struct {
-	id    int
-	px    *rig.Proxy
-	acct  *rig.AcctListener
-	prev  snap
-	seen  int // accepted connections already attributed
-	run   *verdict.Run
-	last  *result // client observations of the most recent single
+	id   int
+	px   *rig.Proxy
+	acct *rig.AcctListener
+	prev snap
+	seen int // accepted connections already attributed
+	run  *verdict.Run
+	last *result // client observations of the most recent single
 }
 
 var (
@@ -512,7 +512,7 @@ func singlesList(run *verdict.Run) []*caseSpec {
 		// every byte offset of the recorded sessions (the upper bound is clamped to the session length)
 		for _, cfg := range abortConfigs {
 			for _, cut := range []string{"fin", "rst"} {
-				for k := 1; k < 900; k++ {
+				for k := 1; k < 480; k++ {
 					add(&caseSpec{Kind: "abort", ALPN: cfg.alpn, TLS12: cfg.tls12, Cut: cut, KRel: "abs", KOff: k})
 				}
 			}
@@ -860,8 +860,9 @@ func main() {
 	run.Require("mid_connection_checks", 20)
 	run.Require("batches", int64(nb))
 	run.Require("overcount_rechecks", 200)
+	run.Assume("the expected label of a connection is derived from what its client observed: application data or close_notify from the server proves ok=1; a handshake the client could not finish (TLS 1.3: before its Finished was written) proves ok=0; a client that finished its handshake but saw neither proof, and a reset at or after the end of the Finished flight, are accepted under either label (counted as two_label_oracle)")
 	run.Assume("'when that connection ends' is judged as: not while the connection is open and being served, and within 5 s (singles) / 10 s (batches) after the server closed it; observed latencies are in the evidence")
-	run.Assume("the verifhook delay points named in DESIGN.md do not exist in /repo; schedules are varied by concurrency, random start/hold times and five lanes of parallel load only")
+	run.Assume("the verifhook delay points named in DESIGN.md do not exist in /repo; schedules are varied by concurrency, random start/hold times and four proxies working in parallel only")
 	run.Finish()
 }
 
